@@ -358,6 +358,17 @@ func (i *interpreter) namedType(pkg, name string) types.Type {
 	return t.Type()
 }
 
+// ruleError builds a blockchain.RuleError{ErrorCode: <code>, Description: msg}.
+func (i *interpreter) ruleError(code, msg string) value {
+	const pkg = "github.com/btcsuite/btcd/blockchain"
+	t := i.namedType(pkg, "RuleError")
+	c := i.prog.ssa.ImportedPackage(pkg).Const(code)
+	if c == nil {
+		panic(engineError{"constant not found: " + pkg + "." + code})
+	}
+	return iface{t: t, v: structure{constValue(c.Value), msg}}
+}
+
 func (i *interpreter) newError(msg string) value {
 	t := i.namedType("errors", "errorString")
 	cell := value(structure{msg})
@@ -745,7 +756,32 @@ func init() {
 			return fr.i.newError("vp: " + kind + " failed")
 		}
 	}
-	reg("github.com/btcsuite/btcd/blockchain.CheckBlockSanity", pred("blockSane"))
+	// CheckBlockSanity: with vpOpt("blocktime",1) the header part of the check
+	// comes first, as in btcd: a block whose timestamp is too far ahead of the
+	// local clock fails with RuleError{ErrTimeTooNew} before its transactions
+	// are looked at; any other failure is reported as RuleError{ErrBadMerkleRoot}.
+	bodySane := pred("blockSane")
+	reg("github.com/btcsuite/btcd/blockchain.CheckBlockSanity", func(fr *frame, a []value) value {
+		if on, _ := fr.i.ext["opt:blocktime"].(bool); on {
+			mb := fr.i.msgBlockOf(ptrArg(a[0]))
+			ok := true
+			switch x := fr.i.blockPred("blockTimeOK", mb).(type) {
+			case bool:
+				ok = x
+			case *Term:
+				ok = fr.i.p.branch(x, "blockTimeOK")
+			}
+			if !ok {
+				fr.i.callLog()["blockSane"]++
+				return fr.i.ruleError("ErrTimeTooNew", "vp: block timestamp too far in the future")
+			}
+		}
+		r := bodySane(fr, a)
+		if it, isIface := r.(iface); isIface && it.t != nil {
+			return fr.i.ruleError("ErrBadMerkleRoot", "vp: block merkle root is invalid")
+		}
+		return r
+	})
 	reg("github.com/btcsuite/btcd/blockchain.ValidateWitnessCommitment", pred("witnessOK"))
 	unwrap := func(v value) *value {
 		if it, ok := v.(iface); ok {
@@ -754,6 +790,7 @@ func init() {
 		return ptrArg(v)
 	}
 	vpExternals["vpBlockSane"] = func(fr *frame, a []value) value { return fr.i.blockPred("blockSane", unwrap(a[0])) }
+	vpExternals["vpBlockTimeOK"] = func(fr *frame, a []value) value { return fr.i.blockPred("blockTimeOK", unwrap(a[0])) }
 	vpExternals["vpBlockWitnessOK"] = func(fr *frame, a []value) value { return fr.i.blockPred("witnessOK", unwrap(a[0])) }
 }
 
